@@ -86,13 +86,15 @@ structure TLink (file : AFile) (G : List String) (c : TCtx) : Prop where
 
 /-! ### expressions -/
 
-theorem typed_imm {env : Env} {c : TCtx} {s : Scp} {Γ : Ctx} {i : Imm} (hi : immOK env Γ i = true) (hs : stdImm i = true)
+theorem typed_imm {env : Env} {c : TCtx} {s : Scp} {Γ : Ctx} {i : Imm} (hi : immOK env file G Γ i = true) (hs : stdImm i = true)
     (hsc : TScp s Γ) : tyOfT c s (compileImm env i) = .ok (goTy i.ty) := by
   cases i with
   | var x ty =>
     simp only [immOK] at hi
     cases hl : lookupTy Γ x with
-    | none => rw [hl] at hi; simp at hi
+    | none =>
+      rw [hl] at hi; simp only [stdImm] at hs
+      cases ty <;> simp [fnValOK, stdTy] at hi hs
     | some t =>
       rw [hl] at hi; simp only at hi
       have := scalarEq_eq hi; subst this
@@ -114,7 +116,7 @@ theorem typed_imm {env : Env} {c : TCtx} {s : Scp} {Γ : Ctx} {i : Imm} (hi : im
   | tag idx ty => simp [stdImm] at hs
 
 theorem typed_imms {env : Env} {c : TCtx} {s : Scp} {Γ : Ctx} (hsc : TScp s Γ) : ∀ {args : List Imm} {tys : List Ty},
-    argsOK env Γ args tys = true → args.all stdImm = true →
+    argsOK env file G Γ args tys = true → args.all stdImm = true →
     tysOfT c s (compileImms env args) = .ok (tys.map goTy) ∧ tys.all stdTy = true
   | [], [], _, _ => by simp [compileImms, tysOfT]
   | [], _ :: _, h, _ => by simp [argsOK] at h
@@ -143,7 +145,7 @@ theorem normT_func (ps : List GTy) (r : GTy) : normT (.func ps r) = .func (normT
 /-- a simple `CExpr` of stage (a) compiled by `compile_cexpr` has the Go type of its annotation -/
 theorem typed_cexpr {env : Env} {file : AFile} {G : List String} {c : TCtx} {D : Names} {s : Scp} {Γ : Ctx} {K : KCtx} {e : CExpr}
     (hctl : isCtl e = false) (hfrag : fragC env file G Γ K e = true) (hstd : stdC e = true) (hsc : TScp s Γ)
-    (hctx : SCtx D (skeys s) Γ (calleesC e)) (hl : TLink file G c) :
+    (hctx : SCtx file G D (skeys s) Γ (calleesC (Γ.map (·.1)) e)) (hl : TLink file G c) :
     tyOfT c s (compileCExpr env e) = .ok (goTy e.annTy) ∧ stdTy e.annTy = true := by
   cases e with
   | imm i =>
@@ -191,8 +193,37 @@ theorem typed_cexpr {env : Env} {file : AFile} {G : List String} {c : TCtx} {D :
     | var name fty =>
       simp only [Bool.and_eq_true, Bool.not_eq_true'] at hf
       simp only [fragC, Bool.or_eq_true] at hfrag
+      by_cases hlc : localCallOK env file G Γ (.var name fty) args ty = true
+      · -- a call through a local of function type
+        simp only [localCallOK] at hlc
+        cases hlk : lookupTy Γ name with
+        | none => rw [hlk] at hlc; cases hlc
+        | some t =>
+          rw [hlk] at hlc
+          cases t <;> simp only at hlc <;> try (cases hlc; done)
+          rename_i ps r
+          simp only [Bool.and_eq_true, Bool.not_eq_true'] at hlc
+          obtain ⟨⟨⟨⟨hft, hsp⟩, hext⟩, hargs⟩, hty⟩ := hlc
+          have hext' : env.getExternFn (rn name) = none := by
+            cases hx : env.getExternFn (rn name) with
+            | none => rfl
+            | some p => rw [hx] at hext; simp at hext
+          have hty' := scalarEq_eq hty; subst hty'
+          have hlook : lookupS s (vn name) = some (goTy (.func ps ty)) := hsc name _ hlk
+          obtain ⟨hts, hpstd⟩ := typed_imms (c := c) hsc hargs hargsS
+          have hgts : ∀ l : List Ty, goTys l = l.map goTy := by
+            intro l; induction l with
+            | nil => simp [goTys]
+            | cons a l ih => simp [goTys, ih]
+          have hgf : goTy (.func ps ty) = .func (ps.map goTy) (goTy ty) := by simp [goTy, hgts]
+          have hcond : ((lookupS s (vn name)).isNone && (c.findFunc (vn name)).isNone) = false := by simp [hlook]
+          simp only [compileCExpr, compileCall_local hsp hext', CExpr.annTy, tyOfT, hcond, Bool.false_eq_true, if_false, hlook,
+            hts, callOfT, hgf, normT_func, argsAssignable_std c hpstd, if_true, (goTy_std htyS).1]
+          simp
       have hcall : callOK env file G Γ (.var name fty) args ty = true := by
-        rcases hfrag with (h | h) | h
+        rcases hfrag with ((h | h) | h) | h
+        rotate_left 3
+        · exact absurd h hlc
         · exact h
         · exfalso
           simp only [refCallOK, Bool.and_eq_true] at h
@@ -210,14 +241,19 @@ theorem typed_cexpr {env : Env} {file : AFile} {G : List String} {c : TCtx} {D :
       have hshape := compileCall_frag hcall
       simp only [callOK, Bool.and_eq_true, Bool.not_eq_true', beq_iff_eq] at hcall
       obtain ⟨⟨⟨⟨⟨hloc, hrn⟩, hsp⟩, hext⟩, hentry⟩, hcase⟩ := hcall
-      have hcs : calleesC (.call (.var name fty) args ty) = [vn name] := by
-        simp only [calleesC]; exact goCallee_plain hsp hrn
+      have hcs : calleesC (Γ.map (·.1)) (.call (.var name fty) args ty) = [vn name] := by
+        simp only [calleesC]
+        have hnone : lookupTy Γ name = none := by
+          cases hx : lookupTy Γ name with
+          | none => rfl
+          | some p => rw [hx] at hloc; simp at hloc
+        exact goCallee_plain (lookupTy_none_not_mem hnone) hsp hrn
       have hnin : ¬ vn name ∈ skeys s := fun hk =>
         (hctx.cal (vn name) (by rw [hcs]; exact List.mem_singleton.mpr rfl)).1 (hctx.scD _ hk)
       have hlook : lookupS s (vn name) = none := lookupS_none hnin
       simp only [compileCExpr, hshape, CExpr.annTy]
       -- the callee's signature
-      have hsig : ∃ ps, c.findFunc (vn name) = some (ps.map goTy, goTy ty) ∧ argsOK env Γ args ps = true := by
+      have hsig : ∃ ps, c.findFunc (vn name) = some (ps.map goTy, goTy ty) ∧ argsOK env file G Γ args ps = true := by
         cases hsg : builtinSig name with
         | some pr =>
           obtain ⟨ps, r⟩ := pr
@@ -300,8 +336,24 @@ theorem isNilLit_simple {env : Env} {e : CExpr} (hstd : stdC e = true) (hctl : i
     | var name fty =>
       simp only [Bool.and_eq_true, Bool.not_eq_true'] at hstd
       simp only [fragC, Bool.or_eq_true] at hfrag
+      by_cases hlc : localCallOK env file G Γ (.var name fty) args ty = true
+      · simp only [localCallOK] at hlc
+        cases hlk : lookupTy Γ name with
+        | none => rw [hlk] at hlc; cases hlc
+        | some t =>
+          rw [hlk] at hlc
+          cases t <;> simp only at hlc <;> try (cases hlc; done)
+          simp only [Bool.and_eq_true, Bool.not_eq_true'] at hlc
+          obtain ⟨⟨⟨⟨_, hsp⟩, hext⟩, _⟩, _⟩ := hlc
+          have hext' : env.getExternFn (rn name) = none := by
+            cases hx : env.getExternFn (rn name) with
+            | none => rfl
+            | some p => rw [hx] at hext; simp at hext
+          simp [compileCExpr, compileCall_local hsp hext', isNilLit, isCallE]
       have hcall : callOK env file G Γ (.var name fty) args ty = true := by
-        rcases hfrag with (h | h) | h
+        rcases hfrag with ((h | h) | h) | h
+        rotate_left 3
+        · exact absurd h hlc
         · exact h
         · exfalso
           simp only [refCallOK, Bool.and_eq_true] at h
@@ -322,21 +374,21 @@ theorem isNilLit_simple {env : Env} {e : CExpr} (hstd : stdC e = true) (hctl : i
 
 /-! ### the scope along a statement list -/
 
-theorem SCtx.extend {D sc : Names} {Γ : Ctx} {cs : List String} (h : SCtx D sc Γ cs) {ys : Names}
-    (hnew : ∀ y, y ∈ ys → y ∈ D ∧ y ≠ "_") : SCtx D (ys ++ sc) Γ cs :=
+theorem SCtx.extend {D sc : Names} {Γ : Ctx} {cs : List String} (h : SCtx file G D sc Γ cs) {ys : Names}
+    (hnew : ∀ y, y ∈ ys → y ∈ D ∧ y ≠ "_") : SCtx file G D (ys ++ sc) Γ cs :=
   ⟨fun x t hx => List.mem_append_right _ (h.vars x t hx),
    fun y hy => by rcases List.mem_append.mp hy with hy | hy; exact (hnew y hy).1; exact h.scD y hy,
    fun hb => by rcases List.mem_append.mp hb with hb | hb; exact (hnew _ hb).2 rfl; exact h.nob hb,
-   h.cal⟩
+   h.cal, h.fns⟩
 
-theorem SCtx.letvar {D sc : Names} {Γ : Ctx} {cs : List String} (h : SCtx D sc Γ cs) {x : String} (hx : vn x ∈ sc) (t : Ty) :
-    SCtx D sc ((x, t) :: Γ) cs := by
-  refine ⟨fun y ty hy => ?_, h.scD, h.nob, h.cal⟩
+theorem SCtx.letvar {D sc : Names} {Γ : Ctx} {cs : List String} (h : SCtx file G D sc Γ cs) {x : String} (hx : vn x ∈ sc) (t : Ty) :
+    SCtx file G D sc ((x, t) :: Γ) cs := by
+  refine ⟨fun y ty hy => ?_, h.scD, h.nob, h.cal, h.fns⟩
   by_cases hxy : x = y
   · subst hxy; exact hx
   · rw [lookupTy_cons_ne _ _ hxy] at hy; exact h.vars y ty hy
 
-theorem TScp.extend {D : Names} {s : Scp} {Γ : Ctx} {cs : List String} (h : TScp s Γ) (hctx : SCtx D (skeys s) Γ cs) {Dl : Scp}
+theorem TScp.extend {D : Names} {s : Scp} {Γ : Ctx} {cs : List String} (h : TScp s Γ) (hctx : SCtx file G D (skeys s) Γ cs) {Dl : Scp}
     (hfresh : ∀ y, y ∈ skeys Dl → ¬ y ∈ skeys s) : TScp (Dl ++ s) Γ := by
   intro x t hx
   rw [lookupS_append_right (fun hk => hfresh _ hk (hctx.vars x t hx))]
@@ -399,7 +451,7 @@ theorem ndDecls_nil : ndDecls [] = [] := by simp [ndDecls]
 /-- the simple forms in tail position are well typed and declare nothing -/
 theorem typedC_simple {env : Env} {file : AFile} {G : List String} {c : TCtx} {D : Names} {ret : Option GTy} (hl : TLink file G c)
     (m : Mode) (e : CExpr) (Γ : Ctx) (K : KCtx) (s : Scp) (hctl : isCtl e = false)
-    (hfrag : fragC env file G Γ K e = true) (hstd : stdC e = true) (hsc : TScp s Γ) (hctx : SCtx D (skeys s) Γ (calleesC e))
+    (hfrag : fragC env file G Γ K e = true) (hstd : stdC e = true) (hsc : TScp s Γ) (hctx : SCtx file G D (skeys s) Γ (calleesC (Γ.map (·.1)) e))
     (htgt : TgtSc m Γ (skeys s)) (htt : TgtTy m s e.annTy) : seqOK c ret s (compileSimple env m e) s := by
   obtain ⟨hty, hstdt⟩ := typed_cexpr (c := c) hctl hfrag hstd hsc hctx hl
   cases m with
@@ -423,7 +475,7 @@ theorem typedC_simple {env : Env} {file : AFile} {G : List String} {c : TCtx} {D
 mutual
 theorem typedA {env : Env} {file : AFile} {G : List String} {c : TCtx} {D : Names} {ret : Option GTy} (hl : TLink file G c) :
     ∀ (e : AExpr) (m : Mode) (st : St) (Γ : Ctx) (K : KCtx) (s : Scp), fragA env file G Γ K e = true → stdA e = true →
-      TScp s Γ → SCtx D (skeys s) Γ (calleesA e) → DeclOK D (skeys s) (compileA env m st e).1 → TgtSc m Γ (skeys s) →
+      TScp s Γ → SCtx file G D (skeys s) Γ (calleesA (Γ.map (·.1)) e) → DeclOK D (skeys s) (compileA env m st e).1 → TgtSc m Γ (skeys s) →
       TgtTy m s (aTy e) →
       ∃ Dl, seqOK c ret s (compileA env m st e).1 (Dl ++ s) ∧ ∀ y, y ∈ skeys Dl → y ∈ ndDecls (compileA env m st e).1
   | .ret c0, m, st, Γ, K, s, hfrag, hstd, hsc, hctx, hdecl, htgt, htt => by
@@ -436,8 +488,8 @@ theorem typedA {env : Env} {file : AFile} {G : List String} {c : TCtx} {D : Name
     obtain ⟨⟨hsv, hsvt⟩, hsb⟩ := hstd
     simp only [aTy] at htt
     rw [compileA_let] at hdecl ⊢
-    have hctxv : SCtx D (skeys s) Γ (calleesC v) := hctx.mono_cs (fun f hf => by simp [calleesA, hf])
-    have hctxb : SCtx D (skeys s) Γ (calleesA body) := hctx.mono_cs (fun f hf => by simp [calleesA, hf])
+    have hctxv : SCtx file G D (skeys s) Γ (calleesC (Γ.map (·.1)) v) := hctx.mono_cs (fun f hf => by simp [calleesA, hf])
+    have hctxb : SCtx file G D (skeys s) Γ (calleesA (x :: Γ.map (·.1)) body) := hctx.mono_cs (fun f hf => by simp [calleesA, hf])
     have hda := hdecl.1; rw [ndDecls_append] at hda
     obtain ⟨hndP, hndR, hdisj⟩ := List.nodup_append.mp hda
     have hT : cexprTy env v = goTy v.annTy := by simp [cexprTy, cexprTastTy_frag hfv]
@@ -455,7 +507,7 @@ theorem typedA {env : Env} {file : AFile} {G : List String} {c : TCtx} {D : Name
       have hfresh1 : ∀ y, y ∈ skeys [(vn x, goTy v.annTy)] → ¬ y ∈ skeys s := fun y hy => by
         simp only [skeys, List.map_cons, List.map_nil, List.mem_singleton] at hy; subst hy; exact hxin.1
       have hsc1 : TScp ((vn x, goTy v.annTy) :: s) Γ := TScp.extend (Dl := [(vn x, goTy v.annTy)]) hsc hctxv hfresh1
-      have hctx1 : SCtx D (skeys ((vn x, goTy v.annTy) :: s)) Γ (calleesC v) := hctxv.extend hnew1
+      have hctx1 : SCtx file G D (skeys ((vn x, goTy v.annTy) :: s)) Γ (calleesC (Γ.map (·.1)) v) := hctxv.extend hnew1
       have hdecl1 : DeclOK D (skeys ((vn x, goTy v.annTy) :: s)) d.1 :=
         ⟨hndd, fun y hy => by
           have := hdecl.2 y (by rw [ndDecls_append, ndDecls_varDecl]; simp [hy])
@@ -482,9 +534,9 @@ theorem typedA {env : Env} {file : AFile} {G : List String} {c : TCtx} {D : Name
         simp only [s2]; rw [lookupS_append_right hxDl1]; exact lookupS_cons_self _ _ _
       have hsc2 : TScp s2 ((x, v.annTy) :: Γ) := (TScp.extend hsc1 hctx1 hk1fresh).letvar hlx
       have hks2 : skeys s2 = skeys Dl1 ++ (vn x :: skeys s) := by simp [s2, skeys]
-      have hctx2 : SCtx D (skeys s2) ((x, v.annTy) :: Γ) (calleesA body) := by
+      have hctx2 : SCtx file G D (skeys s2) ((x, v.annTy) :: Γ) (calleesA (x :: Γ.map (·.1)) body) := by
         rw [hks2]
-        have hb1 : SCtx D (skeys ((vn x, goTy v.annTy) :: s)) Γ (calleesA body) := hctxb.extend hnew1
+        have hb1 : SCtx file G D (skeys ((vn x, goTy v.annTy) :: s)) Γ (calleesA (x :: Γ.map (·.1)) body) := hctxb.extend hnew1
         exact (hb1.extend hk1D).letvar (List.mem_append_right _ List.mem_cons_self) _
       have hdecl2 : DeclOK D (skeys s2) (compileA env m d.2 body).1 :=
         ⟨hndR, fun y hy => by
@@ -527,7 +579,7 @@ theorem typedA {env : Env} {file : AFile} {G : List String} {c : TCtx} {D : Name
       let s2 : Scp := (vn x, goTy v.annTy) :: s
       have hsc2 : TScp s2 ((x, v.annTy) :: Γ) :=
         (TScp.extend (Dl := [(vn x, goTy v.annTy)]) hsc hctxv hfresh1).letvar (lookupS_cons_self _ _ _)
-      have hctx2 : SCtx D (skeys s2) ((x, v.annTy) :: Γ) (calleesA body) :=
+      have hctx2 : SCtx file G D (skeys s2) ((x, v.annTy) :: Γ) (calleesA (x :: Γ.map (·.1)) body) :=
         (hctxb.extend hnew1).letvar (by simp [s2, skeys]) _
       have hdecl2 : DeclOK D (skeys s2) (compileA env m (st.check (okBindSimple env v)) body).1 :=
         ⟨hndR, fun y hy => by
@@ -553,7 +605,7 @@ theorem typedA {env : Env} {file : AFile} {G : List String} {c : TCtx} {D : Name
         · subst hy; exact List.mem_append_left _ List.mem_cons_self
 theorem typedC {env : Env} {file : AFile} {G : List String} {c : TCtx} {D : Names} {ret : Option GTy} (hl : TLink file G c) :
     ∀ (e : CExpr) (m : Mode) (st : St) (Γ : Ctx) (K : KCtx) (s : Scp), fragC env file G Γ K e = true → stdC e = true →
-      TScp s Γ → SCtx D (skeys s) Γ (calleesC e) → DeclOK D (skeys s) (compileTail env m st e).1 → TgtSc m Γ (skeys s) →
+      TScp s Γ → SCtx file G D (skeys s) Γ (calleesC (Γ.map (·.1)) e) → DeclOK D (skeys s) (compileTail env m st e).1 → TgtSc m Γ (skeys s) →
       TgtTy m s e.annTy →
       ∃ Dl, seqOK c ret s (compileTail env m st e).1 (Dl ++ s) ∧ ∀ y, y ∈ skeys Dl → y ∈ ndDecls (compileTail env m st e).1
   | .ite c0 t e ty, m, st, Γ, K, s, hfrag, hstd, hsc, hctx, hdecl, htgt, htt => by
@@ -606,8 +658,8 @@ theorem typedC {env : Env} {file : AFile} {G : List String} {c : TCtx} {D : Name
       simp only [List.mem_singleton] at hy; subst hy; exact hcvin.2
     have hfresh1 : ∀ y, y ∈ skeys [(gid cv, GTy.bool)] → ¬ y ∈ skeys s := fun y hy => by
       simp only [skeys, List.map_cons, List.map_nil, List.mem_singleton] at hy; subst hy; exact hcvin.1
-    have hctxc : SCtx D (skeys s) Γ (calleesA c0) := hctx.mono_cs (fun f hf => by simp [calleesC, hf])
-    have hctxb : SCtx D (skeys s) Γ (calleesA b) := hctx.mono_cs (fun f hf => by simp [calleesC, hf])
+    have hctxc : SCtx file G D (skeys s) Γ (calleesA (Γ.map (·.1)) c0) := hctx.mono_cs (fun f hf => by simp [calleesC, hf])
+    have hctxb : SCtx file G D (skeys s) Γ (calleesA (Γ.map (·.1)) b) := hctx.mono_cs (fun f hf => by simp [calleesC, hf])
     have hsc1 : TScp s1 Γ := TScp.extend (Dl := [(gid cv, GTy.bool)]) hsc hctxc hfresh1
     have hdeclA : DeclOK D (skeys s1) rA.1 :=
       ⟨hndA, fun y hy => by
@@ -635,7 +687,7 @@ theorem typedC {env : Env} {file : AFile} {G : List String} {c : TCtx} {D : Name
       simp only [stmtOKT, tyOfT, hlcv, R.bind, tyEqT, normT, tyBeqG, R.guard, if_true, blockOKT, R.both]
     have hks2 : skeys s2 = skeys DA ++ (gid cv :: skeys s) := by simp [s2, s1, skeys]
     have hsc2 : TScp s2 Γ := TScp.extend hsc1 (hctxc.extend hnew1) hkAfresh
-    have hctx2 : SCtx D (skeys s2) Γ (calleesA b) := by
+    have hctx2 : SCtx file G D (skeys s2) Γ (calleesA (Γ.map (·.1)) b) := by
       rw [hks2]; exact (hctxb.extend hnew1).extend hkAD
     have hdeclB : DeclOK D (skeys s2) rB.1 :=
       ⟨hndBB, fun y hy => by
@@ -758,7 +810,7 @@ theorem lookupTy_mem' {Γ : Ctx} {x : String} {t : Ty} (h : lookupTy Γ x = some
 theorem fn_typed {env : Env} {file : AFile} {G : List String} {c : TCtx} {st : St} {g : AFn} (hl : TLink file G c)
     (hlocal : localOK env file G st g = true) (hstd : stdFn g = true) : fnOKT c (compileFn env st g).1 = .ok () := by
   simp only [localOK, srcLocalOK, goLocalOK, Bool.and_eq_true, Bool.not_eq_true', compileFn_shape] at hlocal
-  obtain ⟨⟨⟨⟨hps, hrs⟩, hfrag⟩, hret⟩, ⟨hnodup0, hblank⟩, hcallees⟩ := hlocal
+  obtain ⟨⟨⟨⟨hps, hrs⟩, hfrag⟩, hret⟩, ⟨⟨hnodup0, hblank⟩, hcallees⟩, hfnames⟩ := hlocal
   simp only [stdFn, Bool.and_eq_true] at hstd
   obtain ⟨⟨hpstd, hrstd⟩, hbstd⟩ := hstd
   have hnodup := of_decide_eq_true hnodup0
@@ -809,9 +861,9 @@ theorem fn_typed {env : Env} {file : AFile} {G : List String} {c : TCtx} {st : S
     have hne : gid retName ≠ vn x := fun e => hretP (e ▸ List.mem_map_of_mem (f := fun p => vn p.1) hmem)
     simp only [s1]; rw [lookupS_cons_ne _ _ hne]
     exact lookupS_params g.params hndP (x, t) hmem
-  have hctx : SCtx D (skeys s1) (paramCtx g) (calleesA g.body) := by
+  have hctx : SCtx file G D (skeys s1) (paramCtx g) (calleesA ((paramCtx g).map (·.1)) g.body) := by
     rw [hk1]
-    refine ⟨fun x t hx => ?_, fun y hy => ?_, fun h => ?_, fun f hf => ?_⟩
+    refine ⟨fun x t hx => ?_, fun y hy => ?_, fun h => ?_, fun f hf => ?_, fun e he => ?_⟩
     · obtain ⟨p, hp, rfl⟩ := lookupTy_mem hx
       simp only [paramCtx, List.mem_reverse] at hp
       exact List.mem_cons_of_mem _ (List.mem_map_of_mem (f := fun p => vn p.1) hp)
@@ -822,6 +874,9 @@ theorem fn_typed {env : Env} {file : AFile} {G : List String} {c : TCtx} {st : S
       · exact hnb (h ▸ hRD)
       · exact hnb (hPD _ h)
     · have := List.all_eq_true.mp hcallees f hf
+      simp only [Bool.and_eq_true, Bool.not_eq_true', List.contains_eq_mem, decide_eq_false_iff_not, bne_iff_ne] at this
+      exact this
+    · have := List.all_eq_true.mp hfnames e he
       simp only [Bool.and_eq_true, Bool.not_eq_true', List.contains_eq_mem, decide_eq_false_iff_not, bne_iff_ne] at this
       exact this
   have hdecl : DeclOK D (skeys s1) S := by
